@@ -20,7 +20,8 @@ def chunked(body: bytes, r, exts=False, trailers=False):
         i += n
     out += b"0" + (b";last" if exts and r.random() < 0.3 else b"") + b"\r\n"
     if trailers and r.random() < 0.5:
-        out += b"X-Trailer: yes\r\n"
+        for _ in range(r.choice([1, 1, 1, 2, 3])):
+            out += r.choice([b"X-Trailer: yes", b"X-Sum: abc", b"t:", b"Expires: never \t", b"x-long: " + b"v" * 70]) + b"\r\n"
     return out + b"\r\n"
 
 
@@ -162,6 +163,26 @@ def split_points(r, data, mode):
     if mode == "bytes":
         return [data[i:i + 1] for i in range(len(data))]
     k = r.choice([2, 2, 3, 5])
+    if mode == "struct":
+        # cuts next to the line ends of the framing (size lines, chunk-data CRLFs, last chunk, trailer lines, final empty line):
+        # every position that touches a CR or an LF, preferring the tail of the body (last chunk + trailer section), and often
+        # two neighbouring line ends at once (`...X-Sum: abc | CRLF | CRLF`)
+        near = sorted({q_ for i, b in enumerate(data) if b in (13, 10) for q_ in (i, i + 1) if 0 < q_ < len(data)})
+        tail = [q_ for q_ in near if q_ >= len(data) - 48]
+        cuts = set()
+        for _ in range(r.choice([1, 2, 2, 3, 4])):
+            pool = tail if (tail and r.random() < 0.7) else near
+            if not pool:
+                break
+            c = r.choice(pool)
+            cuts.add(c)
+            if r.random() < 0.6:
+                cuts.update(x for x in (c + 2, c - 2) if x in near and r.random() < 0.7)
+        cuts = sorted(cuts) or [r.randrange(1, len(data))]
+        out, p = [], 0
+        for c in cuts + [len(data)]:
+            out.append(data[p:c]); p = c
+        return [x for x in out if x]
     cuts = sorted(set(r.randrange(1, len(data)) for _ in range(k - 1)))
     out, p = [], 0
     for c in cuts + [len(data)]:
@@ -197,7 +218,7 @@ def history(r, max_reqs=4, kinds=None):
         elif body_mode == "later":
             segs = split_points(r, first, head_mode) + [q.wire_body]
         elif body_mode == "split":
-            segs = split_points(r, first, head_mode) + split_points(r, q.wire_body, "split")
+            segs = split_points(r, first, head_mode) + split_points(r, q.wire_body, "struct" if (q.framing == "chunked" and r.random() < 0.6) else "split")
         else:  # part of the body now, the rest together with the next request after the response was seen
             cut = r.randrange(1, len(q.wire_body))
             segs = split_points(r, first, head_mode)
@@ -271,4 +292,35 @@ def stall_cases(r, n):
         resp = {"swallow": "R200:0:" + hx(b"0"), "echo": None, "noread": "R200:0:" + hx(b"noread"), "readk0": "R200:0:e", "hookdrop": "R405:0:e", "notfound": "R404:0:e"}[kind]
         exp = ([resp] if resp else []) + ["EOF"] + ([] if resp else ["EOF"])
         out.append(("CONN max=4096 rto=250 script=" + ",".join(steps), exp, {"kinds": ["stall-" + kind], "early_chunked": False, "ec_idx": None}))
+    return out
+
+
+def chunk_tail_cases(r, budget):
+    """Chunked request bodies whose END (last chunk, trailer section, final empty line) is cut at every pair of positions that
+    touch a CR or an LF: `0 CRLF | X-Sum: abc | CRLF | CRLF`, `…abc CR | LF CRLF`, … — each part is its own segment, sent only when
+    the server has taken the previous one.  The request is followed by a probe request: its answer shows whether the server
+    found the byte after the body.  returns [(line, expected transcript, meta)]"""
+    out = []
+    probe = b"GET /p/1/2 HTTP/1.1\r\n\r\n"
+    tails = [b"0\r\n\r\n", b"0\r\nX-Sum: abc\r\n\r\n", b"0;last\r\nA: b\r\nC:\r\n\r\n", b"000\r\nx-long: " + b"v" * 40 + b"\r\n\r\n"]
+    for tail in tails:
+        for route, ans in ((b"/echo", b"hello"), (b"/noread", b"noread"), (b"/nothing-here", None)):
+            head = b"POST " + route + b" HTTP/1.1\r\nTransfer-Encoding: chunked\r\n\r\n"
+            pre = b"5\r\nhello\r\n"
+            near = sorted({q for i, b in enumerate(tail) if b in (13, 10) for q in (i, i + 1) if 0 < q < len(tail)})
+            pairs = [(a,) for a in near] + [(a, b) for a in near for b in near if a < b]
+            if len(pairs) > budget:
+                pairs = r.sample(pairs, budget)
+            for cs in pairs:
+                parts, p_ = [], 0
+                for c in list(cs) + [len(tail)]:
+                    parts.append(tail[p_:c]); p_ = c
+                first = head + pre + parts[0] if r.random() < 0.5 else None
+                steps = ["s:" + hx(first)] if first else ["s:" + hx(head + pre), "s:" + hx(parts[0])]
+                steps += ["s:" + hx(x) for x in parts[1:] if x]
+                steps += ["r", "s:" + hx(probe), "r", "e"]
+                exp = [("R200:0:" + hx(ans)) if ans is not None else "R404:0:e", "R200:0:" + hx(b"1,2"), "OPEN"]
+                # an unread body whose end is still in flight when the handler answers: class K07 (chunked read-ahead) does not
+                # apply here — nothing is sent after the body before the response has been read
+                out.append(("CONN max=4096 script=" + ",".join(steps), exp, {"kinds": ["chunktail"], "early_chunked": False, "ec_idx": None}))
     return out
